@@ -103,6 +103,9 @@ class RestartRun(HistoryRun):
             except Exception:
                 pass
         case.drop_engine(graceful=graceful)
+        for p in case.prov:          # the users' own sessions are not the engine's: they stay connected
+            if not p.connected:
+                p.connect(p._creds)
         self.is_down = True
         self._offline_ops = 0
 
